@@ -53,32 +53,50 @@ structure Accepted (db : Db Hash Sig) (id : LogId) (n : Sth Hash Sig) (pf : List
   link : db id = none ∨ ∃ prevRaw, db id = some prevRaw ∧ prevRaw.size < n.size ∧
       verifyConsistency env.nodeH prevRaw.size n.size pf prevRaw.root n.root = true
 
-/-- Complete case analysis of `update`: either the store is unchanged and the reply is an error or
-    the raw held STH, or the update was `Accepted`, the row becomes the submitted raw STH and the reply
-    is the cosigned parsed STH. -/
+/-- what `accept` returns -/
+theorem accept_spec (db : Db Hash Sig) (id : LogId) (n next : Sth Hash Sig) :
+    (∃ c, env.cosign next = some c ∧ accept env db id n next = (db.set id n, .cosigned next c)) ∨
+    (env.cosign next = none ∧
+      accept env db id n next = (if Gen.witnessSignsBeforeCommit then db else db.set id n, .err .sign)) := by
+  unfold accept
+  cases h : env.cosign next with
+  | some c => exact Or.inl ⟨c, rfl, rfl⟩
+  | none => exact Or.inr ⟨rfl, rfl⟩
+
+/-- Complete case analysis of `update`: the store is unchanged and the reply is an error or the raw
+    held STH; or the update was `Accepted`, the row becomes the submitted raw STH and the reply is the
+    cosigned parsed STH; or the update was `Accepted` but signing failed — the reply is an error and
+    the row is written or not according to the order the code has (`Gen.witnessSignsBeforeCommit`). -/
 theorem update_spec (db : Db Hash Sig) (id : LogId) (raw : Raw Hash Sig) (pf : List Hash) :
-    (∃ k, update env db id raw pf = (db, .err k)) ∨
+    (∃ k, k ≠ .sign ∧ update env db id raw pf = (db, .err k)) ∨
     (∃ s f, update env db id raw pf = (db, .held s f) ∧ db id = some s) ∨
-    (∃ n next, raw = .sth n ∧ Accepted env db id n pf next ∧
-      update env db id raw pf = (db.set id n, .cosigned next (env.cosign next))) := by
+    (∃ n next c, raw = .sth n ∧ Accepted env db id n pf next ∧ env.cosign next = some c ∧
+      update env db id raw pf = (db.set id n, .cosigned next c)) ∨
+    (∃ n next, raw = .sth n ∧ Accepted env db id n pf next ∧ env.cosign next = none ∧
+      update env db id raw pf = (if Gen.witnessSignsBeforeCommit then db else db.set id n, .err .sign)) := by
   unfold update
   by_cases hk : env.known id = true
   · rw [if_neg (by simp [hk])]
     cases raw with
-    | garbage => exact Or.inl ⟨_, rfl⟩
+    | garbage => exact Or.inl ⟨_, by simp, rfl⟩
     | sth n =>
       dsimp only
       cases hp : parse env id (.sth n) with
-      | error e => exact Or.inl ⟨_, rfl⟩
+      | error e => exact Or.inl ⟨_, by simp, rfl⟩
       | ok next =>
         dsimp only
         have hf := parse_fields env hp
         cases hdb : db id with
-        | none => exact Or.inr (Or.inr ⟨n, next, rfl, ⟨hp, Or.inl hdb⟩, rfl⟩)
+        | none =>
+          dsimp only
+          have hacc : Accepted env db id n pf next := ⟨hp, Or.inl hdb⟩
+          rcases accept_spec env db id n next with ⟨c, hc, he⟩ | ⟨hc, he⟩
+          · exact Or.inr (Or.inr (Or.inl ⟨n, next, c, rfl, hacc, hc, he⟩))
+          · exact Or.inr (Or.inr (Or.inr ⟨n, next, rfl, hacc, hc, he⟩))
         | some prevRaw =>
           dsimp only
           cases hpp : parse env id (.sth prevRaw) with
-          | error e => exact Or.inl ⟨_, rfl⟩
+          | error e => exact Or.inl ⟨_, by simp, rfl⟩
           | ok prev =>
             dsimp only
             have hfp := parse_fields env hpp
@@ -93,12 +111,16 @@ theorem update_spec (db : Db Hash Sig) (id : LogId) (raw : Raw Hash Sig) (pf : L
               · rw [if_neg h2]
                 by_cases h4 : verifyConsistency env.nodeH prev.size next.size pf prev.root next.root = true
                 · rw [if_pos h4]
-                  refine Or.inr (Or.inr ⟨n, next, rfl, ⟨hp, Or.inr ⟨prevRaw, hdb, ?_, ?_⟩⟩, rfl⟩)
-                  · rw [← hf.1, ← hfp.1]; omega
-                  · rw [← hf.1, ← hfp.1, ← hf.2.1, ← hfp.2.1]; exact h4
+                  have hacc : Accepted env db id n pf next := by
+                    refine ⟨hp, Or.inr ⟨prevRaw, hdb, ?_, ?_⟩⟩
+                    · rw [← hf.1, ← hfp.1]; omega
+                    · rw [← hf.1, ← hfp.1, ← hf.2.1, ← hfp.2.1]; exact h4
+                  rcases accept_spec env db id n next with ⟨c, hc, he⟩ | ⟨hc, he⟩
+                  · exact Or.inr (Or.inr (Or.inl ⟨n, next, c, rfl, hacc, hc, he⟩))
+                  · exact Or.inr (Or.inr (Or.inr ⟨n, next, rfl, hacc, hc, he⟩))
                 · rw [if_neg h4]; exact Or.inr (Or.inl ⟨_, _, rfl, rfl⟩)
   · rw [if_pos (by simp [hk])]
-    exact Or.inl ⟨_, rfl⟩
+    exact Or.inl ⟨_, by simp, rfl⟩
 
 theorem Db.set_same (db : Db Hash Sig) (id : LogId) (s : Sth Hash Sig) : (db.set id s) id = some s := by
   simp [Db.set]
@@ -111,26 +133,65 @@ def Inv (db : Db Hash Sig) : Prop := ∀ id s, db id = some s → ∃ p, parse e
 theorem inv_empty : Inv env (Db.empty : Db Hash Sig) := by
   intro id s h; simp [Db.empty] at h
 
+theorem inv_set (db : Db Hash Sig) (id : LogId) (n next : Sth Hash Sig) (h : Inv env db)
+    (hp : parse env id (.sth n) = .ok next) : Inv env (db.set id n) := by
+  intro x s hx
+  by_cases hxi : x = id
+  · subst hxi
+    rw [Db.set_same] at hx
+    cases hx
+    exact ⟨next, hp⟩
+  · rw [Db.set_other _ _ _ _ hxi] at hx
+    exact h x s hx
+
 theorem inv_step (db : Db Hash Sig) (op : Op Hash Sig) (h : Inv env db) : Inv env (step env db op).1 := by
   cases op with
   | getSTH id => exact h
   | getLogs => exact h
   | update id raw pf =>
     simp only [step]
-    rcases update_spec env db id raw pf with ⟨k, h1⟩ | ⟨s, f, h1, _⟩ | ⟨n, next, _, hacc, heq⟩
+    rcases update_spec env db id raw pf with ⟨k, _, h1⟩ | ⟨s, f, h1, _⟩ | ⟨n, next, c, _, hacc, _, heq⟩ | ⟨n, next, _, hacc, _, heq⟩
     · rw [h1]; exact h
     · rw [h1]; exact h
+    · rw [heq]; exact inv_set env db id n next h hacc.parsed
     · rw [heq]
-      intro x s hx
-      show ∃ p, parse env x (.sth s) = .ok p
-      change (db.set id n) x = some s at hx
-      by_cases hxi : x = id
-      · subst hxi
-        rw [Db.set_same] at hx
-        cases hx
-        exact ⟨next, hacc.parsed⟩
-      · rw [Db.set_other _ _ _ _ hxi] at hx
-        exact h x s hx
+      by_cases hg : Gen.witnessSignsBeforeCommit = true
+      · simp only [hg, if_true]; exact h
+      · simp only [hg, if_false]; exact inv_set env db id n next h hacc.parsed
+
+/-- a cosigned reply of `getSTH` is the parsed stored row with `cosign`'s output -/
+theorem getSTH_cosigned {db : Db Hash Sig} {id : LogId} {s : Sth Hash Sig} {c : CoSig}
+    (h : getSTH env db id = .cosigned s c) :
+    ∃ raw, db id = some raw ∧ parse env id (.sth raw) = .ok s ∧ env.cosign s = some c := by
+  unfold getSTH at h
+  cases hdb : db id with
+  | none => simp [hdb] at h
+  | some raw =>
+    simp only [hdb] at h
+    cases hp : parse env id (.sth raw) with
+    | error e => simp [hp] at h
+    | ok p =>
+      simp only [hp] at h
+      cases hc : env.cosign p with
+      | none => simp [hc] at h
+      | some c' =>
+        simp only [hc, Reply.cosigned.injEq] at h
+        exact ⟨raw, rfl, by rw [← h.1]; exact hp, by rw [← h.1, ← h.2]; exact hc⟩
+
+/-- a cosigned reply of `update` comes from an `Accepted` update whose row was written -/
+theorem update_cosigned {db : Db Hash Sig} {id : LogId} {raw : Raw Hash Sig} {pf : List Hash} {s : Sth Hash Sig} {c : CoSig}
+    (h : (update env db id raw pf).2 = .cosigned s c) :
+    ∃ n, raw = .sth n ∧ Accepted env db id n pf s ∧ env.cosign s = some c ∧
+      update env db id raw pf = (db.set id n, .cosigned s c) := by
+  rcases update_spec env db id raw pf with ⟨k, _, h1⟩ | ⟨s', f, h1, _⟩ | ⟨n, next, c', hraw, hacc, hc, heq⟩ | ⟨n, next, _, _, _, heq⟩
+  · rw [h1] at h; cases h
+  · rw [h1] at h; cases h
+  · rw [heq] at h
+    simp only [Reply.cosigned.injEq] at h
+    obtain ⟨h1, h2⟩ := h
+    subst h1; subst h2
+    exact ⟨n, hraw, hacc, hc, heq⟩
+  · rw [heq] at h; cases h
 
 theorem inv_run (ops : List (Op Hash Sig)) : ∀ db : Db Hash Sig, Inv env db → Inv env (run env db ops) := by
   induction ops with
